@@ -521,7 +521,10 @@ class LoopContract:
     modifies   {var name: type}   variables assigned in the body (havoced at the cut); type 'Real'|'Int'|'Bool'|callable
     """
     def __init__(self, index="k", invariant=(), modifies=None, label=None, decreases=None, abort=False, ghost_pre=None,
-                 assumes=()):
+                 assumes=(), unfold=()):
+        # unfold: clause texts assumed at the head of the arbitrary iteration (index bound): ground instances of the definitions
+        # of ghost spec functions at the current index (definitional, conservative; never facts about program state)
+        self.unfold = list(unfold)
         # assumes: clause texts assumed (not proved) at loop entry: definitions of ghost functions and stated lemmas
         self.assumes = list(assumes)
         # ghost_pre: {name: clause text} evaluated at loop entry (before the havoc), usable as names in the invariant
@@ -1424,9 +1427,56 @@ class Engine:
                     self.assign(g.target, it.elem(i), e2)
                     return self.ev(node.elt, e2)
                 return SymSeq(it.length, elem, "comprehension")
+        if len(node.generators) == 2 and not node.generators[0].ifs and not node.generators[1].ifs:
+            it = self.ev(node.generators[0].iter, env)
+            if isinstance(it, SymSeq) and getattr(it, "items", None) is None:
+                # flattening [elt for row in rows for x in row] of a symbolic sequence of fixed-length rows:
+                # item j comes from row j // m, position j % m
+                g0, g1 = node.generators
+
+                def row_vals(i):
+                    e2 = Env(env)
+                    self.assign(g0.target, it.elem(i), e2)
+                    vals = []
+                    for item in self.iter_concrete(self.ev(g1.iter, e2)):
+                        e3 = Env(e2)
+                        self.assign(g1.target, item, e3)
+                        vals.append(self.ev(node.elt, e3))
+                    return vals
+                m = len(row_vals(self.fresh("rowprobe", "Int")))
+                if m == 0:
+                    return VList([])
+
+                def elem(j, m=m):
+                    j = to_z3(j)
+                    i = _floordiv(j, z3.IntVal(m))
+                    r = j - m * i
+                    vals = row_vals(i)
+                    out = vals[-1]
+                    for k in reversed(range(m - 1)):
+                        out = self.ite_value(r == k, vals[k], out)
+                    if isinstance(out, Ref) and out.sort in self.ref_rebuild_hooks and self._flatten_is_position(row_vals, m, out.sort):
+                        # the merged identity term is provably the position itself (rows of fresh objects numbered m*i + k)
+                        return self.ref_rebuild_hooks[out.sort](self, j)
+                    return out
+                return SymSeq(self.arith("*", it.length, m), elem, "flatten")
         out = []
         self._comp(node.generators, env, lambda e2: out.append(self.ev(node.elt, e2)))
         return VList(out)
+
+    def _flatten_is_position(self, row_vals, m, sort):
+        """valid(row_vals(i)[k].term == m * i + k for every k): decided once per flattening by a ground LIA query"""
+        key = ("flatten-pos", id(row_vals))
+        if key not in self.ghost:
+            i = z3.Int("i!flatpos")
+            vals = row_vals(i)
+            s = z3.Solver()
+            s.set("timeout", 2000)
+            s.add(i >= 0)
+            s.add(z3.Or(*[to_z3(v.term) != m * i + k if isinstance(v, Ref) and v.sort == sort else z3.BoolVal(True)
+                          for k, v in enumerate(vals)]))
+            self.ghost[key] = (s.check() == z3.unsat, row_vals)     # row_vals kept alive: id() stays unique
+        return self.ghost[key][0]
 
     def ev_DictComp(self, node, env):
         if len(node.generators) == 1 and not node.generators[0].ifs:
@@ -1933,8 +1983,65 @@ class Engine:
             finally:
                 self.spec_mode -= 1
 
+    _MUTATORS = ("append", "extend", "insert", "pop", "remove", "clear", "sort", "reverse", "add", "discard", "update",
+                 "setdefault", "popitem", "fill", "put", "resize")
+
+    def check_loop_frame(self, st, env, lc):
+        """frame of a loop cut: every local that the body may change and that exists before the loop (rebinding, augmented assignment,
+        stores through a subscript / attribute, mutating method calls on the name) has to be listed in `modifies`; otherwise the
+        arbitrary iteration would start from the loop-entry value of that variable (unsound).  A body that changes something outside
+        the frame needs a contract: the function is outside the verified subset until the sidecar is extended"""
+        changed = set()
+
+        def base_name(t):
+            while isinstance(t, (ast.Subscript, ast.Attribute)):
+                t = t.value
+            return t.id if isinstance(t, ast.Name) else None
+
+        def targets(t):
+            if isinstance(t, ast.Name):
+                changed.add(t.id)
+            elif isinstance(t, (ast.Tuple, ast.List)):
+                for e in t.elts:
+                    targets(e)
+            elif isinstance(t, ast.Starred):
+                targets(t.value)
+            elif isinstance(t, (ast.Subscript, ast.Attribute)):
+                b = base_name(t)
+                if b:
+                    changed.add(b)
+        targets(st.target) if isinstance(st, ast.For) else None
+        for node in [n for b in st.body for n in ast.walk(b)]:
+            if isinstance(node, ast.Assign):
+                for t in node.targets:
+                    targets(t)
+            elif isinstance(node, (ast.AugAssign, ast.AnnAssign)):
+                targets(node.target)
+            elif isinstance(node, (ast.For, ast.comprehension)):
+                if isinstance(node, ast.For):
+                    targets(node.target)
+            elif isinstance(node, ast.NamedExpr):
+                targets(node.target)
+            elif isinstance(node, ast.With):
+                for it in node.items:
+                    if it.optional_vars is not None:
+                        targets(it.optional_vars)
+            elif isinstance(node, ast.Call) and isinstance(node.func, ast.Attribute) and node.func.attr in self._MUTATORS:
+                b = base_name(node.func.value)
+                if b:
+                    changed.add(b)
+            elif isinstance(node, ast.Delete):
+                for t in node.targets:
+                    targets(t)
+        missing = sorted(n for n in changed if n not in lc.modifies and n != "self" and env.has(n)
+                         and not isinstance(env.lookup(n), (FuncRef, ClassRef, Ext)))
+        if missing:
+            raise NeedsContract("loop at line {}: the body changes {} which the loop contract's frame (modifies) does not list".format(
+                st.lineno, ", ".join(missing)))
+
     def cut_loop(self, st, env, lc, seq):
         tag = lc.label or "loop@{}".format(self._fn_ordinal(st))
+        self.check_loop_frame(st, env, lc)
         n = seq.length
         k0 = env.vars.get(lc.index)
         self.eval_ghost_pre(lc, env)
@@ -1960,6 +2067,9 @@ class Engine:
                 self.assume(to_z3(self.ev_clause(text, ek)))
             if getattr(seq, "items", None) is not None:
                 raise OutsideSubset("loop contract over a concrete sequence: unroll instead")
+            for cl in lc.unfold:
+                lab, text = clause_parts(cl)
+                self.assume(to_z3(self.ev_clause(text, ek)))
             self.assign(st.target, seq.elem(k), env)
             self.ghost[lc.index] = k
             try:
@@ -2007,6 +2117,7 @@ class Engine:
                     continue
             return
         tag = lc.label or "while@{}".format(self._fn_ordinal(st))
+        self.check_loop_frame(st, env, lc)
         self.eval_ghost_pre(lc, env)
         for i, cl in enumerate(lc.invariant):
             lab, text = clause_parts(cl)
